@@ -263,6 +263,20 @@ CHECKS = {
         technique='solver-enumerated bounded exploration (z3 DFS) with native execution of the real code on real .xlsx files',
         engine='E2',
     ),
+    'C03': dict(
+        category='other',
+        text=('Bounded exhaustive exploration, enumerated by z3 and executed natively on real .xlsx files through the real Parser, of dependency graphs: '
+              '3 formula cells on 2 sheets, every one of the 512 edge sets (self loops, cross-sheet edges) x 5 rotations of base formulas (the same '
+              'unqualified text on two sheets, rectangles sharing a start cell with different extents used repeatedly, a whole-column reference). Per '
+              'workbook the whole translation and the entry-point translation from each formula cell are checked: cycle (anywhere / reachable from '
+              "the entry) => the library's parser exception; else the slice is closed, contains everything the entry reaches and evaluates each of "
+              'those cells to the value of an independent evaluator (= the whole-workbook value).'),
+        design_ref='DESIGN.md section 6 / C03',
+        note=('the solver enumerates the finite graph space (translation is concrete by nature); more than 3 formula cells, dependencies through criteria '
+              'ranges / INDEX / COLUMN and deeper graphs are outside the claim.'),
+        technique='solver-enumerated bounded exploration (z3 DFS) with native execution of the real code on real .xlsx files',
+        engine='E2',
+    ),
 }
 
 NOT_YET = {}   # filled below for every property without a check
